@@ -77,7 +77,8 @@ def arms(fn, adt_suffixes):
 
 def region(fn, edge):
     cfg = fn.cfg
-    return [b for b in range(cfg.n) if cfg.dominates(edge.node, b)]
+    idom = cfg.idom
+    return [b for b in range(cfg.n) if b in idom and cfg.dominates(edge.node, b)]
 
 
 def m1_local(led, rid, ctx):
